@@ -29,7 +29,10 @@ EnvField(n) == "env::" \o n
 (* ---------------- canonical content ---------------- *)
 SrcCanon == [short |-> "docker", canon |-> "docker", suffixed |-> "docker-suffixed", other |-> "local", other2 |-> "local2"]
 CfgCanon == [null |-> "NONE", empty |-> "NONE", emptylist |-> "NONE", kv |-> "kv", kw |-> "kw", deep_v |-> "deep_v", deep_w |-> "deep_w",
-             num1 |-> "num1", str1 |-> "str1", bfalse |-> "bfalse", zero |-> "zero", emptystr |-> "emptystr"]
+             num1 |-> "num1", str1 |-> "str1", bfalse |-> "bfalse", zero |-> "zero", emptystr |-> "emptystr",
+             \* an empty mapping, an empty list and null NESTED inside a config are three different values (only a config that is
+             \* empty as a whole has the one canonical spelling, null)
+             nest_map |-> "nest_map", nest_list |-> "nest_list", nest_null |-> "nest_null", nest_el_map |-> "nest_el_map", nest_el_null |-> "nest_el_null"]
 MatrixCanon == [nil |-> "NONE", empty |-> "NONE", list_ab |-> "list_ab", list_ac |-> "list_ac", setup_os |-> "setup_os", setup_os2 |-> "setup_os2",
                 dim_arch |-> "dim_arch", list_linux |-> "list_linux", shadow_a |-> "shadow_a", shadow_b |-> "shadow_b", adj_tomb_v |-> "adj_tomb_v", adj_tomb_w |-> "adj_tomb_w",
                 dims_empty |-> "dims_empty", dims_empty2 |-> "dims_empty2", dims_mixed_a |-> "dims_mixed_a", dims_mixed_b |-> "dims_mixed_b",
